@@ -41,6 +41,9 @@ pub struct WireCase {
     /// drive with a TRACE-level tracing subscriber installed
     #[serde(default)]
     pub tracing: bool,
+    /// one transient read error (Interrupted / WouldBlock / TimedOut) at this read call
+    #[serde(default)]
+    pub error_at: Option<(usize, String)>,
 }
 
 pub struct Material {
@@ -100,6 +103,7 @@ fn run_case_inner(case: &WireCase, m: &Material, extra: usize) -> Outcome {
         pending: &case.pending,
         flavour: case.flavour,
         extra_receives: extra,
+        error_at: case.error_at.clone(),
     })
 }
 
@@ -706,6 +710,7 @@ impl Check for C03 {
                     },
                     flavour: fl,
                     tracing: tracing_on,
+                    error_at: None,
                 };
                 ctx.about_to_eval(&case);
                 let ev = eval_c03(&case);
@@ -759,7 +764,104 @@ impl Check for C03 {
 
 pub struct C10;
 
+/// C10 under one transient read failure (read timeout, EINTR, EWOULDBLOCK) with a caller that
+/// keeps receiving: whatever the connection does with the failure, it must not report a clean
+/// close unless the stream really ended on a response boundary after everything was delivered,
+/// and every response it returns must be the next one the server encoded.
+fn eval_c10_transient(case: &WireCase) -> Eval {
+    let m = case.materialize();
+    let enc = m.encoded.as_ref().expect("C10 cases are session based");
+    let cut = match &case.source {
+        Source::Session { cut, .. } => cut.unwrap_or(enc.bytes.len()),
+        _ => unreachable!(),
+    };
+    let o = run_case(case, &m, 1);
+    let session = case_session(case);
+    let mut ev = Eval {
+        digest: outcome_digest(&o),
+        ..Default::default()
+    };
+    let (at, kind) = case.error_at.clone().unwrap_or((0, String::new()));
+    ev.signature = sig_of(&[
+        "transient",
+        &kind,
+        &session_shape(&session),
+        if cut >= enc.bytes.len() { "end" } else { region_at(enc, cut) },
+        &case.seg_name,
+        &format!("{:?}", case.flavour),
+        &format!("{:?}", o.transient.is_some()),
+    ]);
+    ev.nontrivial = o.transient.is_some() || o.connect.is_err();
+    ev.violation = (|| {
+        if let Some(v) = crash_violation("C10", &o) {
+            return Some(v.tag("transient_read_error"));
+        }
+        if o.connect.is_err() {
+            return None; // the failure (or the cut) hit the greeting
+        }
+        let complete = enc.boundaries[1..].iter().filter(|b| **b <= cut).count();
+        for (i, r) in o.responses.iter().enumerate() {
+            if i >= complete || *r != session[i].canon() {
+                return Some(
+                    Violation::new(
+                        "C10",
+                        "wrong_response_after_transient_read_error",
+                        format!(
+                            "after a {} error at read #{} receive #{} returned {} which is not response #{} of the stream (complete responses before the cut: {})",
+                            kind,
+                            at,
+                            i,
+                            r.summary(),
+                            i,
+                            complete
+                        ),
+                    )
+                    .tag("transient_read_error"),
+                );
+            }
+        }
+        let on_boundary = enc.boundaries.contains(&cut);
+        if o.terminal == Terminal::CleanEof && !(on_boundary && o.responses.len() == complete) {
+            return Some(
+                Violation::new(
+                    "C10",
+                    "clean_close_reported_after_transient_read_error",
+                    format!(
+                        "a {} error at read #{} (surfaced as {:?}); then a clean close was reported after {} of {} complete responses, stream cut at {} (on a boundary: {})",
+                        kind,
+                        at,
+                        o.transient,
+                        o.responses.len(),
+                        complete,
+                        cut,
+                        on_boundary
+                    ),
+                )
+                .tag("transient_read_error"),
+            );
+        }
+        if !on_boundary
+            && o.terminal == Terminal::UnexpectedEof
+            && o.after.first() == Some(&Terminal::CleanEof)
+        {
+            return Some(
+                Violation::new(
+                    "C10",
+                    "mid_response_eof_reported_clean_on_retry",
+                    format!("after a {} error at read #{}: cut at {} reported as unexpected EOF, then as a clean close", kind, at, cut),
+                )
+                .tag("transient_read_error"),
+            );
+        }
+        None
+    })();
+    ev
+}
+
 fn eval_c10(case: &WireCase) -> Eval {
+    if case.error_at.is_some() {
+        return eval_c10_transient(case);
+    }
     let m = case.materialize();
     let enc = m.encoded.as_ref().expect("C10 cases are session based");
     let cut = match &case.source {
@@ -954,6 +1056,7 @@ impl Check for C10 {
             c
         };
         ctx.counters.add("cuts", cuts.len() as u64);
+        ctx.counters.add("fault_fired.eof_at_offset", cuts.len() as u64);
         ctx.counters.bump("streams");
         if len <= 4096 {
             ctx.counters.bump("streams_with_every_cut");
@@ -991,6 +1094,7 @@ impl Check for C10 {
                         },
                         flavour: fl,
                         tracing: tracing_on,
+                    error_at: None,
                     };
                     ctx.about_to_eval(&case);
                     let ev = eval_c10(&case);
@@ -999,6 +1103,40 @@ impl Check for C10 {
                     }
                     ctx.record(&case, ev, known);
                 }
+            }
+        }
+        // one transient read failure, caller keeps receiving
+        for _ in 0..4 {
+            let cut = if rng.chance(1, 3) { len } else { rng.urange(greeting.len(), len) };
+            let (seg, name) = rng.pick(&policies).clone();
+            for fl in all_flavours() {
+                let mut case = WireCase {
+                    source: Source::Session {
+                        greeting: greeting.clone(),
+                        session: session.clone(),
+                        cut: Some(cut),
+                        fault: None,
+                    },
+                    seg: seg.clone(),
+                    seg_name: name.clone(),
+                    pending: if fl == Flavour::Async { pending.clone() } else { vec![0] },
+                    flavour: fl,
+                    tracing: tracing_on,
+                    error_at: None,
+                };
+                // how many reads does the undisturbed run take?
+                let reads = run_case(&case, &case.materialize(), 0).reads;
+                let at = match rng.below(4) {
+                    0 => reads.saturating_sub(1),
+                    1 => reads.saturating_sub(2),
+                    _ => rng.urange(0, reads),
+                };
+                let kind = *rng.pick(&["Interrupted", "WouldBlock", "TimedOut"]);
+                case.error_at = Some((at, kind.to_string()));
+                ctx.counters.bump(&format!("fault_fired.transient_{}", kind));
+                ctx.about_to_eval(&case);
+                let ev = eval_c10(&case);
+                ctx.record(&case, ev, known);
             }
         }
     }
@@ -1067,7 +1205,7 @@ impl Check for C10 {
         ]
     }
     fn fault_kinds(&self) -> Vec<&'static str> {
-        vec!["eof_at_offset"]
+        vec!["eof_at_offset", "transient_Interrupted", "transient_WouldBlock", "transient_TimedOut"]
     }
 }
 
@@ -1226,6 +1364,7 @@ impl Check for C02 {
             pending: vec![0],
             flavour: Flavour::Blocking,
             tracing: tracing_on,
+                    error_at: None,
         };
         ctx.about_to_eval(&base);
         let m = base.materialize();
@@ -1583,6 +1722,7 @@ impl Check for C09 {
                 pending: vec![0],
                 flavour: Flavour::Blocking,
                 tracing: false,
+                error_at: None,
             };
             let m = probe.materialize();
             let glen = m.barrier.unwrap_or(m.stream.len());
@@ -1606,6 +1746,7 @@ impl Check for C09 {
                         },
                         flavour: fl,
                         tracing: tracing_on,
+                    error_at: None,
                     };
                     ctx.about_to_eval(&case);
                     let ev = eval_c09(&case);
@@ -1858,6 +1999,7 @@ pub fn run_greeting_index<C: Clone + serde::Serialize>(
                 },
                 flavour: fl,
                 tracing: tracing_on,
+                    error_at: None,
             };
             ctx.about_to_eval(&wrap(case.clone()));
             let ev = eval_greeting(&case);
